@@ -26,8 +26,9 @@ var identRe = regexp.MustCompile(`[A-Za-z_][A-Za-z0-9_]*`)
 
 // contractIdents: identifiers a contract block uses for variables: the head identifier of every
 // hole expression and the identifiers inside anchor arguments.
-func contractIdents(blk *block) map[string]bool {
-	out := map[string]bool{}
+func contractIdents(blk *block) (map[string]bool, map[string]bool) {
+	all, prop := map[string]bool{}, map[string]bool{}
+	out := all
 	var walk func(f *sx)
 	walk = func(f *sx) {
 		if f == nil {
@@ -75,7 +76,34 @@ func contractIdents(blk *block) map[string]bool {
 		}
 	}
 	for _, c := range blk.clauses {
-		walk(c.f)
+		// names in clauses that state the property (postconditions, preconditions, assertions at anchors) are
+		// recorded separately: rebinding them would change what is being claimed.  Clauses labelled step:, link:
+		// or opt: are proof steps / links between a local and the abstraction and count as auxiliary.
+		out = all
+		aux := strings.HasPrefix(c.label, "step:") || strings.HasPrefix(c.label, "link:") || strings.HasPrefix(c.label, "opt:")
+		if (c.kind == "ensures" || c.kind == "exit" || c.kind == "requires" || c.kind == "at-assert") && !aux {
+			before := map[string]bool{}
+			for k := range all {
+				before[k] = true
+			}
+			walk(c.f)
+			for k := range all {
+				if !before[k] {
+					prop[k] = true
+				}
+			}
+			// names already seen elsewhere but used here too
+			tmp := map[string]bool{}
+			out = tmp
+			walk(c.f)
+			for k := range tmp {
+				prop[k] = true
+				all[k] = true
+			}
+			out = all
+		} else {
+			walk(c.f)
+		}
 		if c.anchor != "" {
 			if a, err := parseAnchor(c.anchor); err == nil && a.kind != "call" && a.kind != "go" {
 				// anchors on calls / go statements name the callee, the others a variable or field expression
@@ -96,6 +124,29 @@ func contractIdents(blk *block) map[string]bool {
 			}
 		}
 	}
+	return all, prop
+}
+
+// familyVars: every variable name of the outermost enclosing function and all its closures.
+func familyVars(fn *ssa.Function) map[string]bool {
+	root := fn
+	for root.Parent() != nil {
+		root = root.Parent()
+	}
+	out := map[string]bool{}
+	var rec func(f *ssa.Function)
+	rec = func(f *ssa.Function) {
+		for _, v := range codeVars(f) {
+			out[v] = true
+		}
+		for _, p := range f.Params {
+			out[p.Name()] = true
+		}
+		for _, a := range f.AnonFuncs {
+			rec(a)
+		}
+	}
+	rec(root)
 	return out
 }
 
@@ -142,7 +193,8 @@ func (e *engine) tryRebind(fn *ssa.Function, blk *block, res *fnResult) *fnResul
 	for _, p := range fn.Params {
 		isVar[p.Name()] = true
 	}
-	used := contractIdents(blk)
+	used, propNames := contractIdents(blk)
+	family := familyVars(fn)
 	ghosts := map[string]bool{}
 	for _, c := range blk.byKind("ghost") {
 		ghosts[c.gname] = true
@@ -175,6 +227,13 @@ func (e *engine) tryRebind(fn *ssa.Function, blk *block, res *fnResult) *fnResul
 	}
 	if len(unknown) == 0 || len(unknown) > 2 {
 		return res
+	}
+	for _, u := range unknown {
+		// not a rename: the name states part of the property, is an exported (method / field) name, or is still
+		// a variable elsewhere in the enclosing function (the code now uses a different variable)
+		if propNames[u] || family[u] || (u[0] >= 'A' && u[0] <= 'Z') {
+			return res
+		}
 	}
 	var cands []string
 	for _, v := range vars {
